@@ -487,6 +487,8 @@ func (self *PathNode) handleChild(in *[]PathNode, lp *int, cp *int, p *binary.Bi
 		}
 	}
 	v.Node = self.slice(start, p.Read, tt)
+	// children of a previous use of the slot are not this value's children (scanChildren refills the array)
+	v.Next = v.Next[:0]
 
 	if tt.IsComplex() {
 		if recurse {
@@ -560,6 +562,8 @@ func (self *PathNode) handleUnknownChild(in *[]PathNode, lp *int, cp *int, p *bi
 		}
 	}
 	v.Node = self.slice(start, p.Read, proto.UNKNOWN)
+	// an unknown field has no children; the slot may have had some
+	v.Next = v.Next[:0]
 
 	*in = con
 	*lp = l
